@@ -23,7 +23,7 @@ def closure (w : Wiring) (fuel : Nat) (todo : List Node) (seen : List Node) : Li
   | 0, _ => seen
   | _, [] => seen
   | fuel + 1, n :: rest =>
-    let succs := (tauLabels n.1).filterMap (fun l => (gstep w n.1 l).map (fun s' => (s', l :: n.2)))
+    let succs := (tauLabels n.1).filterMap (fun l => (dstep w n.1 l).map (fun s' => (s', l :: n.2)))
     let (seen', new) := succs.foldl (fun (acc : List Node × List Node) m =>
       if acc.1.any (fun x => x.1 == m.1) then acc else (acc.1 ++ [m], acc.2 ++ [m])) (seen, [])
     closure w fuel (rest ++ new) seen'
@@ -43,7 +43,7 @@ def accept (w : Wiring) (s0 : AState) (ls : List Label) : Verdict :=
     | l :: rest =>
       let cl := closure w 400 front front
       let next := cl.foldl (fun acc n =>
-        match gstep w n.1 l with
+        match dstep w n.1 l with
         | some s' => insertNew acc (s', l :: n.2)
         | none => acc) []
       if next.isEmpty then .rejected k l cl.length
